@@ -1233,6 +1233,8 @@ def concrete_codecs(ctx):
     encode()/prettify()/encode_contents() call whose target is ascii / iso-8859-1 / windows-1252 / utf-8 (any spelling
     codecs.lookup and the model agree on) to the concrete model as well."""
     cd.sweeps(ctx)
+    cd.autodetect_cases(ctx)
+    cd.bom_cases(ctx)
     ctx.extra_cov["concrete_codecs"] = ("ascii, iso-8859-1, windows-1252, utf-8 defined in Coq: str.encode (strict / "
                                         "xmlcharrefreplace / replace) and bytes.decode compared on all single bytes, all code "
                                         "points (encodability), random strings; whole-tree encode calls compared with no "
